@@ -52,6 +52,10 @@ theorem C18_never_stored (ops : List (String × Bytes)) (name : String) (h : ∀
 theorem C18_store_idempotent (s : Store) (name : String) (b : Bytes) :
     load (store (store s name b) name b) name = some b := C18_store_load _ _ _
 
+/-- non-vacuity: two names, one overwritten with the same bytes; an absent name does not load -/
+example : load (store (store (store [] "a" [1, 2]) "b" []) "a" [1, 2]) "a" = some [1, 2] ∧
+    load (store (store [] "a" [1, 2]) "b" []) "b" = some [] ∧ load (store [] "a" [1]) "c" = none := by decide
+
 end Mast.KV
 
 namespace Mast.FS
@@ -61,6 +65,10 @@ theorem C18_file_idempotent_any_cut (d : Dir) (name : String) (bytes : Bytes) (c
     (hfresh : KV.load d name = none) :
     KV.load (storeCut (storeCut d name bytes cut) name bytes (complete name bytes)) name = some bytes :=
   repair_after_cut d name bytes cut hfresh
+
+/-- non-vacuity: a store cut after three of five bytes leaves no file under the node's name -/
+example : KV.load (storeCut [] "n" [1, 2, 3, 4, 5] 5) "n" = none ∧
+    KV.load (storeCut (storeCut [] "n" [1, 2, 3, 4, 5] 5) "n" [1, 2, 3, 4, 5] 9) "n" = some [1, 2, 3, 4, 5] := by decide
 end Mast.FS
 #print axioms Mast.KV.C18_store_load
 #print axioms Mast.KV.C18_store_other
